@@ -190,8 +190,23 @@ def _run(prog, tmp):
             files.append([n, _lines(text), _lines(list(c.records))])
         return {"clock": m.systems.timestep, "env": envl, "records": recs, "files": files}
 
+    # another model of the same program, alive at the same time: another population, its own collectors built from the SAME
+    # functions; it is stepped right before this one every time
+    other = Model()
+    for k in range(3):
+        oa = Agent("o%d" % k, other)
+        ov = Val(oa, other)
+        ov.v = 1000 + k
+        oa.add_component(ov)
+        other.environment.add_agent(oa)
+    for a in prog["acs"]:
+        comp = COMPS.get(a["comp"]) if a["comp"] != "total_shared" else None
+        other.systems.add_system(AgentCollector(other, FKINDS[a["fkind"]], comp, a["incl"], id=a["name"], frequency=a["freq"],
+                                                start=a["start"], end=_end(a["end"])))
     events = [{"op": "setup", "acs": prog["acs"], "fcs": prog["fcs"], "obs": obs()}]
     for kind, ops in prog["ops"]:
+        if kind != "between":
+            other.execute()
         if kind == "between":
             apply_pop(m, ops)
             events.append({"op": "between", "ops": [list(o) for o in ops], "obs": obs()})
